@@ -59,12 +59,13 @@ structure Config where
 
 def hasRow (rows : List RegistryRec) (p : RegistryRec → Bool) : Bool := rows.any p
 
+/-- every switch is "the table has an UNSAFE row for that registry" -/
 def configOf (rows : List RegistryRec) : Config where
-  wrapperByName := hasRow rows fun r => r.name == "FieldMeta._registry" && r.key == .className
-  mapperByName := hasRow rows fun r => r.name == "aggregated_mapper_by_class" && r.key != .classIdentity
-  simplicityByName := hasRow rows fun r => r.name == "_structure_simplicity_level" && r.key != .classIdentity
-  schemaWritesRequired := hasRow rows fun r => r.kind == .inPlaceClassAttr && r.name == "cls._required"
-  serializerOnBase := hasRow rows fun r => r.kind == .classAttrWrite && r.name == "cls.serialize" && r.key != .classIdentity
+  wrapperByName := hasRow rows fun r => r.name == "FieldMeta._registry" && !r.safe
+  mapperByName := hasRow rows fun r => r.name == "aggregated_mapper_by_class" && !r.safe
+  simplicityByName := hasRow rows fun r => r.name == "_structure_simplicity_level" && !r.safe
+  schemaWritesRequired := hasRow rows fun r => r.name == "cls._required" && !r.safe
+  serializerOnBase := hasRow rows fun r => r.name == "cls.serialize" && !r.safe
 
 /-- the configuration under which the frame property holds without exclusions -/
 def Config.safe (c : Config) : Bool :=
